@@ -17,9 +17,9 @@ def job(args):
     base = tempfile.mkdtemp(prefix="cross.")
     try:
         wt = os.path.join(base, "wt")
-        subprocess.run(["git", "-C", "/repo", "worktree", "add", "-q", "--detach", wt, "HEAD"], check=True)
+        copy_tree("/repo", wt)
         try:
-            if subprocess.run(["git", "-C", wt, "apply", os.path.join(V, "twins", tname, "patch.diff")]).returncode != 0:
+            if subprocess.run(["git", "apply", "--include=src/prov/*", "--include=scripts/*", os.path.join(V, "twins", tname, "patch.diff")], cwd=wt, capture_output=True).returncode != 0:
                 return tname, v["name"], "twin-noapply", ""
             for fkey, old, new in v["edits"]:
                 p = os.path.join(wt, FILES[fkey])
@@ -45,7 +45,7 @@ def job(args):
                     return tname, v["name"], "analysis-error", (r.stdout.splitlines() or [""])[-1][:160]
                 return tname, v["name"], "ok" if r.returncode == 0 else "FALSE-ALARM", ",".join(sorted(fired))[:160]
         finally:
-            subprocess.run(["git", "-C", "/repo", "worktree", "remove", "--force", wt])
+            pass
     finally:
         shutil.rmtree(base, ignore_errors=True)
 
